@@ -158,6 +158,9 @@ def run(repo: Repo, rep: Report, tier: str) -> None:
     # ---------------------------------------------------------------- R1.9
     _dedup_site(repo.func("visit.endpoint.processors.parameter_processor:EndpointParameterProcessor.process_parameters"), "operation parameters",
                 "param_details_map", _Relabel(rep, "R1.9"))
+    from rules.c20 import rule_stored_names_are_fixed_points
+
+    rule_stored_names_are_fixed_points(repo, _Relabel(rep, "R1.9"), "R1.9")
     po = repo.func("core.loader.operations.parser:parse_operations")
     from rules._params import override_merge_keys
 
